@@ -67,9 +67,8 @@ Print Assumptions C20_literal_meaning.
 (* FULL statement wanted: on every well-typed literal the lowering returns a value.  It is REFUTED by the four witnesses
    below; what holds: the only failures (panic or otherwise) on well-typed literals are inside the decidable classes.
    _partial also because (1) the hypothesis class_free_schema is about the whole schema (the generator lowers every default
-   of a crate; a panic anywhere leaves no emitted code), (2) an ENUM-typed const used at an integer field
-   (`(K.inner() as i32)`) is modelled but outside well_typed_lit's const rule (types must agree up to typedefs), and
-   (3) enum-typed values nested in const containers are not covered (container consts can never be referenced). *)
+   of a crate; a panic anywhere leaves no emitted code), and (2) consts of container type are outside `const_simple`: their
+   own definitions are modelled (def_lit) but not specified (they can never be referenced: PCPathConvert). *)
 Theorem C20_lowering_total_partial : forall parse_f64 S,
   class_free_schema S = true -> forall t l,
   well_typed_lit parse_f64 S (erase t) l = true ->
